@@ -10,6 +10,8 @@
 -/
 import NiftyVerif.Lemmas.AllreduceTree
 import NiftyVerif.Lemmas.AllreduceFull
+import NiftyVerif.Lemmas.AllreduceMsgs
+import NiftyVerif.Lemmas.AllreduceReplay
 
 namespace NiftyVerif.C23
 open NiftyVerif.Allreduce
@@ -216,6 +218,88 @@ theorem full_allreduce_all_schedules (counts : List Nat) (hp : 0 < counts.length
   rw [h2, execAll_expand _ m hm _ _ (events_fin n), tree_value n hn 0]
   rfl
 
+/-! ### compound messages (ndarray / Field / MultiField payloads) and the type-detection reduction -/
+
+/-- **matched_kinds_agree**: with every cross-rank transfer of a payload of type `ty` split into its
+    `(sendSeq ty).length` communicator calls, whenever a `recv`/`Recv` of rank `a` is matched with a `send`/`Send` of rank
+    `b` (matching is by peer only), the two calls are the SAME sub-message of the SAME transfer, and its kind on the
+    receiving side (`_recv`: pickled object or buffer) equals its kind on the sending side (`_send`) -/
+theorem matched_kinds_agree {who E init k st a b e e' ra rb} (ty : Ty)
+    (h : Reach who (expand who (sendSeq ty).length E) init k st)
+    (ha : st.prog a = .recv b e :: ra) (hb : st.prog b = .send a e' :: rb) :
+    e = e' ∧ (recvSeq ty).getD e.part .obj = (sendSeq ty).getD e'.part .obj := by
+  have := matched_pair_is_one_event h ha hb
+  subst this
+  exact ⟨rfl, by rw [sendSeq_eq_recvSeq]⟩
+
+/-- **calls_are_expanded_projection**: the per-rank sequences of point-to-point calls that the tie compares with the
+    real runs (`calls`: one `_send`/`_recv` call list per transfer) are exactly the projections of the expanded event list
+    about which deadlock-freedom and schedule-independence are proved -/
+theorem calls_are_expanded_projection (who : Nat → Nat) (ty : Ty) (r : Nat) (E : List Ev) :
+    (proj who r (expand who (sendSeq ty).length E)).filterMap (toCall ty) = (proj who r E).flatMap (actCalls ty) := by
+  induction E with
+  | nil => rfl
+  | cons e E ih =>
+    have hL : proj who r (expand who (sendSeq ty).length (e :: E)) =
+        proj who r (if who e.dst = who e.src then [e] else parts (sendSeq ty).length e) ++
+          proj who r (expand who (sendSeq ty).length E) := by
+      simp [expand, proj, List.filterMap_append]
+    have hR : (proj who r (e :: E)).flatMap (actCalls ty) =
+        (match act who r e with | none => [] | some a => actCalls ty a) ++ (proj who r E).flatMap (actCalls ty) := by
+      cases ha : act who r e with
+      | none => rw [proj_cons_none ha]; rfl
+      | some a => rw [proj_cons_some ha]; rfl
+    rw [hL, hR, List.filterMap_append, ih]
+    congr 1
+    by_cases hloc : who e.dst = who e.src
+    · rw [if_pos hloc]
+      cases ha : act who r e with
+      | none => rw [proj_cons_none ha]; rfl
+      | some a =>
+        rw [proj_cons_some ha]
+        have : a = .loc e := by
+          unfold act at ha
+          split at ha
+          · simp only [hloc, if_true, Option.some.injEq] at ha; exact ha.symm
+          · split at ha
+            · rename_i h1 h2; exact absurd (h2.trans hloc.symm) h1
+            · cases ha
+        subst this
+        rfl
+    · rw [if_neg hloc]
+      exact toCall_parts who ty r e hloc
+
+/-- **dtype_detection_order_independent**: `dtype = comm.allreduce([type(x) …])` concatenates the ranks' lists with a
+    non-commutative `+` in whatever order the MPI library reduces; since only `list(set(dtype))` with the assertion
+    `len == 1` is used, ANY two reduction trees over the same set of ranks give the same answer (same type, or both fail) -/
+theorem dtype_detection_order_independent {α} [DecidableEq α] (ls : Nat → List α) (t1 t2 : RTree)
+    (hranks : ∀ r, r ∈ t1.leavesOf ↔ r ∈ t2.leavesOf) :
+    uniqueType (t1.reduce ls) = uniqueType (t2.reduce ls) := by
+  apply uniqueType_congr
+  intro x
+  rw [mem_reduce, mem_reduce]
+  constructor
+  · rintro ⟨r, hr, hx⟩; exact ⟨r, (hranks r).mp hr, hx⟩
+  · rintro ⟨r, hr, hx⟩; exact ⟨r, (hranks r).mpr hr, hx⟩
+
+/-! ### trace validation: the order of events observed by the communicator in a real run -/
+
+/-- **observed_run_is_model_run**: if the executable replay accepts an observed global order of rendezvous and collectives
+    (each must be an enabled transition; local additions are performed silently), the observation is a run of the
+    transition system — and if it leaves every rank finished, the slots hold the pairwise tree.  Used by the harness on
+    the orders recorded by the fake MPI hub during real `allreduce_sum` runs. -/
+theorem observed_run_is_model_run (counts : List Nat) (hp : 0 < counts.length) (n : Nat) (hn : 0 < n)
+    (m : Nat) (hm : 0 < m) (pre post : List Nat) (fuel : Nat) (obs : List Obs) (x' : XSt)
+    (h : replay counts.length fuel
+      (xInit counts.length (whoOf counts) pre post (expand (whoOf counts) m (events n)) (initStore n)) obs = some x') :
+    (∃ k, FReach counts.length (whoOf counts) pre post (expand (whoOf counts) m (events n)) (initStore n) k x'.toF) ∧
+    ((∀ r, x'.toF.prog r = []) → x'.store 0 = some (pairwiseTree n)) := by
+  have hstar := replay_star counts.length fuel obs _ x' (by simp [xInit]) h
+  rw [xInit_toF] at hstar
+  obtain ⟨k, hk⟩ := freach_of_star FReach.zero hstar
+  refine ⟨⟨k, hk⟩, fun hfin => ?_⟩
+  exact (full_allreduce_all_schedules counts hp n hn m hm pre post hk (no_step_of_all_nil hp hfin)).2
+
 /-! ### non-vacuity -/
 
 -- 5 summands: ((0+1)+(2+3))+4
@@ -226,6 +310,20 @@ example : (events 5).map (fun e => (e.dst, e.src)) = [(0, 1), (2, 3), (0, 2), (0
 example : proj (whoOf [2, 0, 3]) 2 (events 5) =
     [.loc ⟨2, 3, 0, true⟩, .send 0 ⟨0, 2, 0, true⟩, .send 0 ⟨0, 4, 0, true⟩] := by decide
 example : proj (whoOf [2, 0, 3]) 1 (events 5) = [] := by decide
+-- 3 summands on ranks [1,2]: allgather, allreduce, rank 1 ships slot 1 then slot 2 to rank 0, two bcasts: accepted;
+-- the same observation with the two collectives first is NOT a run of the model
+example : ((replay 2 4 (xInit 2 (whoOf [1, 2]) [0, 1] [2, 3] (events 3) (initStore 3))
+    [.coll 0, .coll 1, .p2p 1 0, .p2p 1 0, .coll 2, .coll 3]).map (fun x => (x.progs, (x.store 0).map T.toString))) =
+    some ([[], []], some "((0+1)+2)") := by decide
+example : (replay 2 4 (xInit 2 (whoOf [1, 2]) [0, 1] [2, 3] (events 3) (initStore 3))
+    [.coll 0, .coll 1, .coll 2, .p2p 1 0, .p2p 1 0, .coll 3]).isNone = true := by decide
+-- a Field transfer = two pickled messages; an ndarray transfer = a pickled header and a buffer
+example : (proj (whoOf [1, 1]) 1 (expand (whoOf [1, 1]) (sendSeq .ndarray).length (events 2))).filterMap (toCall .ndarray)
+    = [.send 0 .obj, .send 0 .buf] := by decide
+-- rank order 2,0,1 with another tree shape: same detected type; mixed types: both fail
+example : uniqueType ((RTree.node (.leaf 2) (.node (.leaf 0) (.leaf 1))).reduce (fun r => [[7], [], [7, 7]].getD r [])) =
+    uniqueType ((RTree.node (.node (.leaf 0) (.leaf 1)) (.leaf 2)).reduce (fun r => [[7], [], [7, 7]].getD r [])) := by decide
+example : uniqueType ((RTree.node (.leaf 1) (.leaf 0)).reduce (fun r => [[7], [8]].getD r [])) = none := by decide
 -- floats are not associative: the tree, not the flat sum, is what is evaluated
 example : (pairwiseTree 3).eval (fun a b : Int => a - b) (fun i => [10, 3, 2].getD i 0) = (10 - 3) - 2 := by decide
 
